@@ -38,6 +38,8 @@ type C16Case struct {
 	// Costly: every LZMA chunk consists of two-byte matches at far distances
 	// (compressed size well above the uncompressed size)
 	Costly bool `json:"costly,omitempty"`
+	// BadProps > 0: the chunk with index BadProps-1 (LRN or LRND) carries lc+lp > 4
+	BadProps int `json:"bad_props,omitempty"`
 }
 
 var c16Prefixes = [][]string{{}, {"LRND"}, {"UD"}, {"LRND", "U"}, {"UD", "U"}}
@@ -118,6 +120,18 @@ func genC16(r *sim.Rng, tier string, idx int) *C16Case {
 			c.Dict = sim.Pick(r, []int{4096, 4096, 8192})
 			c.MaxRaw = c.Dict * r.Range(1, 4)
 		}
+		if r.Chance(1, 30) {
+			// a chunk header whose properties byte breaks the LZMA2 rule lc+lp <= 4
+			var pn []int
+			for i, k := range kinds {
+				if k == "LRN" || k == "LRND" {
+					pn = append(pn, i)
+				}
+			}
+			if len(pn) > 0 {
+				c.BadProps = sim.Pick(r, pn) + 1
+			}
+		}
 		if r.Chance(1, 25) {
 			var lz []int
 			for i, k := range kinds {
@@ -193,8 +207,14 @@ func realiseC16(c *C16Case) (cs *refenc.ChunkSeq, legal bool, bad int) {
 			}
 		}
 	}
+	if c.BadProps > 0 {
+		o.BadProps = map[int]bool{c.BadProps - 1: true}
+	}
 	cs = refenc.Realise(r, kinds, o)
 	legal, bad = refenc.Legal(kinds)
+	if c.BadProps > 0 && (legal || c.BadProps-1 < bad) {
+		legal, bad = false, c.BadProps-1 // the chunk with the forbidden properties is the first offence
+	}
 	return cs, legal, bad
 }
 
